@@ -114,8 +114,19 @@ def message_layouts():
             raise lean.TieBroken('no response class for %s: %s' % (name, type(e).__name__))
         if rsp not in index:
             raise lean.TieBroken('response class of %s is not in the registry snapshot' % name)
-        out.append((name, index[rcls], index[rsp]))
+        out.append((name, index[rcls], index[rsp], _spec_literal(rinfo), _spec_literal(dict(snap)[rsp])))
     return out
+
+
+def _spec_literal(info):
+    """The MsgSpec of Gen/Registry.lean as a term (same rendering as harness/translate/registry.py)."""
+    from . import registry
+    grp = 'none' if info['group'] is None else 'some %d' % int(info['group'])
+    fields = [] if info['malformed'] else info['fields']
+    return '⟨%s, %s, %d, %d, %s, %d, %s, %s, [%s]⟩' % (
+        registry._lean_str(info['name']), 'true' if info['name'].endswith('Req') else 'false', info['netfn'], info['cmd'], grp,
+        info['lun'], 'true' if info['has_fields'] else 'false', 'true' if info['malformed'] else 'false',
+        ', '.join(registry._field(f) for f in fields))
 
 
 def _val(m):
@@ -297,10 +308,16 @@ def render(t):
     o.append('')
     o.append('/-! request class found by `create_request_by_name(<name>)`, response class found by')
     o.append('`create_message(netfn + 1, cmdid, group_extension)`; indices into today\'s Gen.Registry -/')
-    for name, qi, ri in t['layouts']:
+    for name, qi, ri, _ql, _rl in t['layouts']:
         o.append('def req%s : MsgSpec := PyIpmi.Gen.Registry.m%d' % (name, qi))
         o.append('def rsp%s : MsgSpec := PyIpmi.Gen.Registry.m%d' % (name, ri))
-    o.append('def apiPairs : List (MsgSpec × MsgSpec) := [' + ', '.join('(req%s, rsp%s)' % (n, n) for n, _, _ in t['layouts']) + ']')
+    o.append('def apiPairs : List (MsgSpec × MsgSpec) := [' + ', '.join('(req%s, rsp%s)' % (l[0], l[0]) for l in t['layouts']) + ']')
+    o.append('')
+    o.append('/-! the same classes spelled out (checked against Gen.Registry by `rfl`): rewrite rules for the')
+    o.append('refinement proofs of Lemmas/Api*.lean, which therefore see every layout change -/')
+    for name, qi, ri, ql, rl in t['layouts']:
+        o.append('theorem req%s_eq : req%s = %s := rfl' % (name, name, ql))
+        o.append('theorem rsp%s_eq : rsp%s = %s := rfl' % (name, name, rl))
     o.append('')
     o.append('end PyIpmi.Gen.Tables')
     return '\n'.join(o) + '\n'
